@@ -37,7 +37,7 @@ def equilibrium(neg, A, B, off=0, pexp=0, Z0=0, C=0, rnodes=None):
         psi = sgn * (A * (r[:, None] - 4.0) ** 2 + B * (z[None, :] - Z0) ** 2 + C * (r[:, None] - 4.0) * (z[None, :] - Z0)) * ps
         lcfs = np.array([[1.5, 6.5, 6.5, 1.5], [-2.5, -2.5, 2.5, 2.5]])
         limiter = np.array([[1.5, 6.5, 6.5, 4.5, 4.5, 1.5], [-2.5, -2.5, 0.5, 0.5, 2.5, 2.5]])
-        _EQ[key] = EFITEquilibrium(r, z, psi, sgn * off / 2.0 * ps, sgn * (A * 4 + B + 2 * C) * ps, Point2D(4.0, float(Z0)), [], [], np.array([[0.0, 1.0], [F0, F0]]),
+        _EQ[key] = EFITEquilibrium(r, z, psi, sgn * off / 2.0 * ps, sgn * (A * 4 + B + 2 * C) * ps, Point2D(4.0, float(Z0)), [], [], np.array([[0.0, 0.25, 0.5, 1.0], [F0, 1.125 * F0, 1.25 * F0, 1.5 * F0]]),
                                    np.array([[0.0, 1.0], [1.0, 2.0]]), BVAC_R, BVAC, lcfs, limiter, 0.0)
     return _EQ[key]
 
@@ -124,13 +124,13 @@ def replay(rec, ctx):
     if not gx:
         # a node of the stretched axis whose neighbours are not equally far away: the gradient is not exact there
         bt_ = eq.b_field(r, z).y
-        if not core.close(bt_, (F0 if rec["inside"] else BVAC * BVAC_R) / r, rtol=1e-9):
+        if not core.close(bt_, fr(rec["bt_r"]) / r, rtol=1e-9):
             bad("toroidal-field-differs", f"{bt_!r}")
         return viol
     # field and basis
     pr, pz = rec["grad"]
     b = eq.b_field(r, z)
-    bt = (F0 if rec["inside"] else BVAC * BVAC_R) / r
+    bt = fr(rec["bt_r"]) / r            # F(psi_n) = 6 + 3 psi_n inside, the vacuum value outside
     if not core.close([b.x, b.y, b.z], [-pz / r, bt, pr / r], rtol=1e-9, atol=1e-12):
         bad("b_field-differs", f"{b} vs {(-pz / r, bt, pr / r)}")
     p = eq.poloidal_vector(r, z)
@@ -293,7 +293,7 @@ def run(v):
 
 def selftest():
     rec = {"neg": False, "A": 1, "B": 1, "r": 5, "z": 1, "angle": [1, 0, 1], "psin": [2, 5], "inside": True, "map2d": [19, 5], "grad": [2, 2],
-           "pol": [-2, 0, 2], "nrm": [-2, 0, -2], "degenerate": False}
+           "pol": [-2, 0, 2], "nrm": [-2, 0, -2], "degenerate": False, "bt_r": [36, 5]}
     good = replay(rec, None)
     bad = replay(dict(rec, map2d=[18, 5]), None)
     ok = not good and bool(bad)
